@@ -106,6 +106,24 @@ asn1c_get_ioc_table(arg_t *arg) {
     return asn1c_get_ioc_table_from_objset(arg, objset_ref, objset);
 }
 
+/*
+ * The expression which determines the C representation of the value:
+ * a field given as a constrained built-in INTEGER, "&id INTEGER (0..255)",
+ * makes the corresponding structure members native even under -fwide-types,
+ * and the table cell must be represented the same way.
+ */
+static asn1p_expr_t *
+ioc_value_type_expr(struct asn1p_ioc_cell_s *cell) {
+    if(cell->field && cell->field->expr_type == A1TC_CLASSFIELD_FTVFS) {
+        asn1p_expr_t *ftype = TQ_FIRST(&(cell->field->members));
+        if(ftype && ftype->expr_type == ASN_BASIC_INTEGER
+           && cell->value->expr_type == ASN_BASIC_INTEGER) {
+            return ftype;
+        }
+    }
+    return cell->value;
+}
+
 static int
 emit_ioc_value(arg_t *arg, struct asn1p_ioc_cell_s *cell) {
 
@@ -119,7 +137,7 @@ emit_ioc_value(arg_t *arg, struct asn1p_ioc_cell_s *cell) {
         switch(cv_type->expr_type) {
         case ASN_BASIC_INTEGER:
         case ASN_BASIC_ENUMERATED:
-            switch(asn1c_type_fits_long(arg, cell->value /* sic */)) {
+            switch(asn1c_type_fits_long(arg, ioc_value_type_expr(cell))) {
             case FL_NOTFIT:
                 GEN_INCLUDE_STD("INTEGER");
                 prim_type = "INTEGER_t";
@@ -216,9 +234,10 @@ emit_ioc_cell(arg_t *arg, struct asn1p_ioc_cell_s *cell) {
     if(!cell->value) {
         /* Ignore */
     } else if(cell->value->meta_type == AMT_VALUE) {
-        GEN_INCLUDE(asn1c_type_name(arg, cell->value, TNF_INCLUDE));
+        GEN_INCLUDE(asn1c_type_name(arg, ioc_value_type_expr(cell), TNF_INCLUDE));
         OUT("aioc__value, ");
-        OUT("&asn_DEF_%s, ", asn1c_type_name(arg, cell->value, TNF_SAFE));
+        OUT("&asn_DEF_%s, ",
+            asn1c_type_name(arg, ioc_value_type_expr(cell), TNF_SAFE));
         OUT("&asn_VAL_%d_%s", cell->value->_type_unique_index,
             MKID(cell->value));
 
